@@ -31,7 +31,7 @@ REQUIRED_MONITORS = ["weights_nonnegative", "weights_sum_to_one", "flat_unchange
 REQUIRED_BUCKETS = {"quick": ["geom:pinhole", "geom:slit(L,0)", "geom:slit(0,W)", "geom:slit(L,W)", "geom:2d",
                               "grid:linear", "grid:log", "grid:irregular", "qcalc:default", "qcalc:user", "n:1", "n:2",
                               "sigma>q", "zero_width", "grid_extension_hits_zero", "perpoint", "directmodel", "directmodel:mixed-zero", "directmodel:widths-changed-on-same-data-object", "q-order:not-ascending", "acc:low", "acc:med", "acc:high",
-                              "acc:xhigh"]}
+                              "acc:xhigh", "2d:on-axis-pixels"]}
 REQUIRED_BUCKETS["thorough"] = REQUIRED_BUCKETS["quick"]
 
 _state = {"installed": False, "current": None, "evals": 0}
@@ -319,6 +319,16 @@ def _run_2d(rec, rng, q, zero, ctx):
     ang = rng.uniform(0, 2*np.pi, n)
     d = _D2()
     d.qx_data, d.qy_data = q*np.cos(ang), q*np.sin(ang)
+    if int(rng.integers(3)) == 0:
+        # pixels exactly on the detector axes (the middle row/column of an odd-sized grid)
+        on = rng.random(n) < 0.5
+        on[int(rng.integers(n))] = True
+        side = rng.integers(0, 4, n)
+        sgn = np.where(side % 2 == 0, 1.0, -1.0)
+        d.qx_data = np.where(on, np.where(side < 2, 0.0, sgn*q), d.qx_data)
+        d.qy_data = np.where(on, np.where(side < 2, sgn*q, 0.0), d.qy_data)
+        rec.bucket("2d:on-axis-pixels")
+        ctx["on_axis_pixels"] = int(on.sum())
     d.q_data = q.copy()
     rel_r, rel_t = float(10**rng.uniform(-2.5, -0.3)), float(10**rng.uniform(-2.5, -0.3))
     d.dqx_data = q*rel_r
@@ -366,13 +376,16 @@ def _run_2d(rec, rng, q, zero, ctx):
         nb = res.nr*res.nphi
         qx = qxc.reshape(nb, n)
         qy = qyc.reshape(nb, n)
-        phi0 = np.arctan(d.qy_data/d.qx_data)
         ok = True
         for i in range(n):
-            # the code centres the samples on (|q| cos phi0, |q| sin phi0) with phi0 = atan(qy/qx)
-            cx, cy = q[i]*np.cos(phi0[i]), q[i]*np.sin(phi0[i])
-            dr = (qx[:, i] - cx)*np.cos(phi0[i]) + (qy[:, i] - cy)*np.sin(phi0[i])
-            dt = -(qx[:, i] - cx)*np.sin(phi0[i]) + (qy[:, i] - cy)*np.cos(phi0[i])
+            # the window of a pixel is centred on the pixel or on its mirror image through the origin (the
+            # intensity is even in q); radial and tangential directions are those of the pixel itself
+            ux, uy = float(d.qx_data[i])/q[i], float(d.qy_data[i])/q[i]
+            mx, my = float(np.mean(qx[:, i])), float(np.mean(qy[:, i]))
+            sg = 1.0 if (mx - q[i]*ux)**2 + (my - q[i]*uy)**2 <= (mx + q[i]*ux)**2 + (my + q[i]*uy)**2 else -1.0
+            cx, cy = sg*q[i]*ux, sg*q[i]*uy
+            dr = (qx[:, i] - cx)*ux + (qy[:, i] - cy)*uy
+            dt = -(qx[:, i] - cx)*uy + (qy[:, i] - cy)*ux
             reach = 3.0*(1 - 1.0/res.nr)
             rho = np.array([np.max(np.abs(dr)), np.max(np.abs(dt))])
             if sr0[i] > 1e-9 and not (reach*sr0[i]*(1 - 1e-9) <= rho[0] <= 3.0*sr0[i]*(1 + 1e-9)):
